@@ -13,7 +13,7 @@ INV_PROP = {'OneProposalPerView': 'C03', 'OneResponsePerView': 'C03', 'OneCommit
             'PhaseOrder': 'C07', 'AmevOff': 'C07', 'TimerOK': 'C10', 'Silent': 'C13', 'HeldTxsBelong': 'C11', 'PrimaryOK': 'C06',
             'PreCertificate': 'C02', 'Certificate': 'C02', 'ResetClean': 'C05', 'EarlyUsed': 'C05',
             'MinGap': 'C16', 'EmptyAfterMax': 'C16', 'ExactGapWhenOff': 'C16', 'NotLate': 'C16', 'Prompt': 'C16', 'SubscribeOnlyIfOn': 'C16',
-            'Termination': 'C09', 'ViewBound': 'C09', 'TimersArmed': 'C10',
+            'Answers': 'C12', 'Termination': 'C09', 'ViewBound': 'C09', 'TimersArmed': 'C10',
             'NeverAsks': 'C08', 'View0': 'C08', 'Decides': 'C08', 'TheBlock': 'C08'}
 
 def node_cfg(name, me=1, h=2, maxview=1, amev=False, watch=False, dyn=False, family=('core',), dev=True, weaken=(), invs=None, n=4,
@@ -108,6 +108,15 @@ LIVE_FAMILIES = [live_cfg('live-silent-primary', silent=(2,)), live_cfg('live-si
                  live_cfg('live-cut-backup', silent=(), cutsets=((1,),), heal=1),
 
                  ]
+
+def tx_cfg(name, me=0, amev=False, maxview=1):
+    b = lambda v: 'TRUE' if v else 'FALSE'
+    txt = ('SPECIFICATION Spec\nCONSTANTS\n  N = 4\n  Me = %d\n  AmevOn = %s\n  MaxView = %d\n  Emit = FALSE\n  CoverMod = 1\nCONSTRAINT ViewBound\nVIEW View\n'
+           'INVARIANTS Answers\nCHECK_DEADLOCK FALSE\n' % (me, b(amev), maxview))
+    return dict(name=name, module='MC_Tx', cfg=txt)
+
+# C12 at design level: the transaction path of one backup (spec/MC_Tx.tla)
+TX_FAMILIES = [tx_cfg('tx-backup0', me=0), tx_cfg('tx-backup3', me=3), tx_cfg('tx-backup0-amev', me=0, amev=True)]
 
 def run_tlc(item, wd, workers=4, cap=1800, simulate=None, cover=0):
     sd = os.path.join(wd, 'mc-' + item['name']); os.makedirs(sd, exist_ok=True)
@@ -320,6 +329,8 @@ def design(tier, wd, vh=None, names=None, module='MC_Node'):
         items = [('fresh', i) for i in DYN_FAMILIES]
     elif module == 'MC_Live':
         items = [('fresh', i) for i in LIVE_FAMILIES]
+    elif module == 'MC_Tx':
+        items = [('fresh', i) for i in TX_FAMILIES]
     else:
         items = [('fresh', i) for i in NODE_FAMILIES['quick']] + [('cached', i) for i in NODE_FAMILIES['cached']]
         if tier != 'quick':
